@@ -71,4 +71,13 @@ theorem C02_glr_model_forest_only_parses (T : Table) (hw : T.wf g = true)
     IsParseOf g inp t :=
   (GLR.parseGLR_forest_sound hw hidem true lexDis fuel sF h a ha l hl t ht).2 rfl
 
+/-- The packed alternatives the driver emits for the model's forest (the lists compared with the
+implementation's forest and with the reference SPPF) are possibilities of links of the final state,
+and each applies a production of the grammar to as many children as its right-hand side has. -/
+theorem C02_glr_model_emitted_alternatives_wellformed (T : Table) (hw : T.wf g = true)
+    (hidem : ∀ p, inp.skip (inp.skip p) = inp.skip p) (consume lexDis : Bool) (fuel fuel' : Nat) (sF : GLR.GState)
+    (h : GLR.parseGLR g T inp consume lexDis fuel = .forest sF) :
+    ∀ a ∈ GLR.reachableAlts T sF fuel', ∃ pr, g.prod? a.2.1 = some pr ∧ a.2.2.length = pr.rhs.length :=
+  GLR.reachableAlts_wellformed sF (GLR.parseGLR_inv hw hidem consume lexDis fuel sF h) fuel'
+
 end Pg
